@@ -6,19 +6,21 @@ From Coq Require Import List Bool Arith String.
 From Manif Require Import ApiMatrix.
 Import ListNotations.
 
-Theorem C19_enumeration_complete es gs e g sc st : In e es -> In g gs -> (sc < 2)%nat -> (st < 3)%nat -> applicable e g st = true ->
+Theorem C19_enumeration_complete es gs e g sc st : In e es -> In g gs -> (sc < 2)%nat -> (st < 6)%nat -> applicable e g st = true ->
   In (e_id e, g_id g, sc, st) (all_cells es gs).
 Proof. exact (all_cells_complete es gs e g sc st). Qed.
 Theorem C19_matrix_ok_sound es gs results e g sc st : matrix_ok es gs results = true ->
-  In e es -> In g gs -> (sc < 2)%nat -> (st < 3)%nat -> applicable e g st = true -> cell_ok results (e_id e, g_id g, sc, st) = true.
+  In e es -> In g gs -> (sc < 2)%nat -> (st < 6)%nat -> applicable e g st = true -> cell_ok results (e_id e, g_id g, sc, st) = true.
 Proof. exact (matrix_ok_sound es gs results e g sc st). Qed.
 Theorem C19_matrix_ok_except_sound es gs excused results e g sc st : matrix_ok_except es gs excused results = true ->
-  In e es -> In g gs -> (sc < 2)%nat -> (st < 3)%nat -> applicable e g st = true ->
+  In e es -> In g gs -> (sc < 2)%nat -> (st < 6)%nat -> applicable e g st = true ->
   existsb (cell_eqb (e_id e, g_id g, sc, st)) excused = true \/ cell_ok results (e_id e, g_id g, sc, st) = true.
 Proof. exact (matrix_ok_except_sound es gs excused results e g sc st). Qed.
 Print Assumptions C19_matrix_ok_sound.
 
 Example C19_applicability : let g := mkGrp 0 "R3" false false false in
-  applicable (mkEntry 0 "X.rotation()" [NeedRot]) g 0 = false /\ applicable (mkEntry 1 "X += w" [NeedMut]) g 2 = false /\
-  applicable (mkEntry 1 "X += w" [NeedMut]) g 1 = true /\ applicable (mkEntry 2 "X.inverse()" []) g 2 = true.
+  applicable (mkEntry 0 "X.rotation()" [NeedRot]) g 0 = false /\ applicable (mkEntry 1 "X += w" [NeedMutX; NeedBin]) g 2 = false /\
+  applicable (mkEntry 1 "X += w" [NeedMutX; NeedBin]) g 1 = true /\ applicable (mkEntry 2 "X.inverse()" []) g 2 = true /\
+  applicable (mkEntry 1 "X += w" [NeedMutX; NeedBin]) g 3 = true /\ applicable (mkEntry 1 "X += w" [NeedMutX; NeedBin]) g 5 = false /\
+  applicable (mkEntry 3 "w += t" [NeedMutW; NeedBin]) g 4 = false /\ applicable (mkEntry 2 "X.inverse()" []) g 4 = false.
 Proof. repeat split. Qed.
